@@ -156,13 +156,24 @@ def loadAmount (amount : Int) (maxHistory : Option Int) : Int :=
   let a := if amount ≤ 0 then (match maxHistory with | some m => m | none => amount) else amount
   if a ≤ 0 then -1 else a
 
+/-- what `Load` keeps of a fetched log: only the entries written for this log (after the `fix:`
+commit, finding F27 — an entry of another log reached through a `refs` link was handed to `Join`,
+which merges a foreign head without verifying it; the replicator has had the same filter since F4) -/
+def ownFetch (id : Nat) (fetch : Nat → OMap) (h : Nat) : OMap := (fetch h).filter (fun e => e.logId == id)
+
+/-- … and, of those, only the entries `Join` will accept (after the `fix:` commit, finding F29 — `Join`
+refuses the WHOLE fetched log when one entry is refused by the access controller or badly signed, so a
+valid entry whose ancestry holds a refused one, merged by the replicator, was gone after a restart) -/
+def goodFetch (acl : Acl) (id : Nat) (fetch : Nat → OMap) (h : Nat) : OMap :=
+  (ownFetch id fetch h).filter (acceptable acl.canAppend)
+
 /-- `Load(amount)` on a freshly opened store: heads = cached local ++ remote heads, in that order
 (the goroutines are serialised by `muJoining`; the order is an input). -/
 def Store.load (acl : Acl) (s : Store) (fetch : Nat → OMap) (amount : Int) (maxHistory : Option Int := none) :
     Except Err Store :=
   let amount := loadAmount amount maxHistory
   let heads := (s.localHeads.getD []) ++ (s.remoteHeads.getD [])
-  match loadHeads acl fetch amount s.log heads with
+  match loadHeads acl (goodFetch acl s.log.id fetch) amount s.log heads with
   | .error e => .error e
   | .ok L' =>
     let idx := if heads.isEmpty then s.idx else updateIndex s.kind s.idx L'
